@@ -571,3 +571,5 @@ func itoa(i int) string {
 }
 
 func Itoa(i int) string { return itoa(i) }
+
+func timeUnix(s int64) time.Time { return time.Unix(s, 0) }
